@@ -85,9 +85,11 @@ func runOne(ctx context.Context, sp solverSpec, file string, timeoutMs int) (sta
 	secs = time.Since(t0).Seconds()
 	out = buf.String()
 	first := strings.TrimSpace(strings.SplitN(out, "\n", 2)[0])
-	switch first {
-	case "unsat", "sat":
+	switch {
+	case first == "unsat" || first == "sat":
 		status = first
+	case strings.HasPrefix(first, "(error") || strings.Contains(first, "Parse Error") || strings.Contains(first, "rror:"):
+		status = "error"
 	default:
 		status = "unknown"
 	}
@@ -131,7 +133,13 @@ func Solve(text string, timeoutMs int) SolverResult {
 		got++
 		res.All[a.name] = a.status
 		raws = append(raws, a.name+": "+strings.TrimSpace(firstN(a.out, 300)))
+		if a.status == "error" && res.Status == "unknown" {
+			res.Status = "error"
+		}
 		if a.status == "unsat" || a.status == "sat" {
+			if res.Status == "error" {
+				res.Status = "unknown"
+			}
 			if res.Status == "unknown" {
 				res.Status = a.status
 				res.Solver = a.name
